@@ -157,6 +157,15 @@ class Streams:
                     if self.correspond is not None and (not quick or n % 3 == 0):
                         self.correspond(whole, rec=(n % 301 == 0))
 
+    def handler_correspondence(self, part=0, parts=1):
+        """Wrappers.v classify / hverdict == the handlers' classify() / the ladder, on exhaustive small-alphabet lists."""
+        for idx, toks in enumerate(lg.handler_token_lists(self.tier)):
+            if idx % parts != part:
+                continue
+            self.correspond(toks, rec=(idx % 1501 == 0))
+            self.out.case(["handler-tokens"] + toks, nontrivial=len(toks) > 2)
+            self.out.count("handler-stream", toks[0])
+
     def replay(self, p):
         self.pair("exact-plain", p["site"], p["whole"], p["inner"], remote=p.get("remote", False), level=p.get("level", "words"), exact=p.get("exact", False))
 
@@ -200,6 +209,8 @@ def worker(task):
                      correspond=lambda toks, rec=False: c04._correspond(out, mcall, get_handler, HandlerContext, toks, cwd, ladder, rec=rec))
         if name == "ladder":
             st.ladder_correspondence(part, parts)
+        elif name == "handlers":
+            st.handler_correspondence(part, parts)
         elif name == "meta":
             st.wrapper_metamorphic()
             st.launcher_metamorphic()
@@ -215,7 +226,8 @@ def start(tier):
     from concurrent.futures import ProcessPoolExecutor
 
     parts = 2 if tier == "quick" else 5
-    tasks = [(tier, "ladder", k, parts) for k in range(parts)] + [(tier, "meta", 0, 1)]
+    hparts = 1 if tier == "quick" else 3
+    tasks = [(tier, "ladder", k, parts) for k in range(parts)] + [(tier, "meta", 0, 1)] + [(tier, "handlers", k, hparts) for k in range(hparts)]
     ex = ProcessPoolExecutor(max_workers=len(tasks) if tier == "quick" else 4, mp_context=multiprocessing.get_context("fork"))
     return ex, [ex.submit(worker, t) for t in tasks]
 
